@@ -33,7 +33,7 @@ pub fn run(cfg: &Cfg, rep: &mut Report) {
             None => rng.next_u64(),
         };
         let mode = if uninit { core_ops::ScratchMode::ExactUninit } else { core_ops::ScratchMode::Exact };
-        let mk = |fill: u64, scratch| core_ops::Opts { fill_seed: fill, scratch, fold: uninit, tiny: uninit };
+        let mk = |fill: u64, scratch| core_ops::Opts { fill_seed: fill, scratch, fold: uninit, tiny: uninit, misalign: 0 };
         let opts: Vec<core_ops::Opts> = if uninit { vec![mk(0xaaaa, mode)] } else { vec![mk(0xaaaa, mode), mk(0xbbbb_0001, mode)] };
         let mut outs = core_ops::run_cases(op, seed, &opts);
         if let Some(e) = &outs[0].setup_error {
